@@ -247,7 +247,7 @@ def check_c07(tier, seed, replay=None, selftest=False):
 @reg("C03")
 def check_c03(tier, seed, replay=None, selftest=False):
     def mk(rng, tier):
-        return merge_jobs(gen_aes.xts_jobs(rng, 10 if tier == "quick" else 0, full=(tier != "quick")))
+        return merge_jobs(gen_aes.xts_jobs(rng, 48 if tier == "quick" else 0, full=(tier != "quick")))
     return aes_check("C03", tier, seed, replay, mk,
                      "one evaluation = one XTS call (family x key size x direction x raw/expanded x length x placement); lengths 16..1055 "
                      "(every tail of the by-8 / by-16 loops with and without stealing) + 4 KiB/64 KiB, and lengths 0..15 for the no-touch clause; "
@@ -597,7 +597,7 @@ def machine_mix(seed, tier, with_dump=False, small=False):
     aj = {}
     aj.update(gen_aes.gcm_oneshot_behaviours(rng, (4 if small else 8) * k))
     aj.update(gen_aes.gcm_stream_jobs(rng, (3 if small else 5) * k))
-    aj.update(gen_aes.xts_jobs(rng, (4 if small else 6) * k))
+    aj.update(gen_aes.xts_jobs(rng, (12 if small else 16) * k))
     aj.update(gen_aes.cbc_jobs(rng, (4 if small else 6) * k))
     aj.update(gen_aes.kexp_jobs(rng, 4 * k))
     ajobs = merge_jobs(aj)
@@ -816,7 +816,7 @@ FUNCTIONAL = {"C01", "C02", "C03", "C04", "C05", "C06", "C07", "C09", "C10", "C1
 def thread_files(rng, n, rounds):
     """n command files (one per thread), each on its own objects, all through the dispatched entry points"""
     files = []
-    kinds = ["hash", "gcm", "xts", "mh", "hash", "rh", "cbc", "hash"]
+    kinds = ["hash", "gcm", "rh", "gcm", "xts", "rh", "gcm", "mh", "cbc", "hash", "rh", "gcm"]
     for t in range(n):
         kind = kinds[t % len(kinds)]
         fam = "isal" if t % 3 else "legacy"
@@ -856,6 +856,11 @@ def check_c18(tier, seed, replay=None, selftest=False):
         return machine_check("C18", tier, seed, replay, {"C18"}, "replay")
     # (i) every event of the single-threaded mix: writable statics change only by a first-call binding
     mix = machine_mix(seed * 31 + 18, tier, small=True)
+    dexe = build.build_driver("disp", DISP_SRCS)
+    dcfgs = gen_disp.configs(collapse=True)
+    dsel = dcfgs[::max(1, len(dcfgs) // (60 if tier == "quick" else 600))]
+    mix.append((dexe, "TraceDispatch", [{"name": "disp-c18", "behaviours": [[gen_disp.vcpu_cmd(c, i % 2 == 1), "bindall"] for i, c in enumerate(dsel)],
+                                          "driver": "disp"}]))
     jobs, outs, nb, ne = run_mix(chk, mix, {"C18"})
     # (ii) N threads, each on its own objects, simultaneous first calls of the dispatched entry points
     rng = random.Random(seed * 77 + 18)
